@@ -35,34 +35,75 @@ where
 /*@*/         cleanup_post(old, new, vstd::prelude::old(ops)@, final(ops)@),
 /*@*/         cleanup_post_exact(old, new, vstd::prelude::old(ops)@, final(ops)@),   // [C11]
 {
+    /*@*/ let ghost ops0 = ops@;
+    /*@*/ proof { lemma_post_refl(old, new, ops0); }
     // First attempt to compact all Deletions
     let mut pointer = 0;
     while let Some(op__r) = ops.get(pointer)
+    /*@*/     invariant
+    /*@*/         exists|b: OBox| #[trigger] cleanup_pre(old, new, ops@, b),
+    /*@*/         cleanup_post(old, new, ops0, ops@),
+    /*@*/         cleanup_post_exact(old, new, ops0, ops@),   // [C11]
     {
         let op = *op__r;
+        /*@*/ proof { let b = choose|b: OBox| cleanup_pre(old, new, ops@, b); assert(inv_pre(old, new, ops@, b)) by { reveal(inv_pre); } lemma_op_usable(old, new, ops@, pointer as int, b); }
         if let DiffTag::Delete = op.tag() {
+            /*@*/ let ghost s1 = ops@;
             pointer = shift_diff_ops_up(ops, old, new, pointer);
+            /*@*/ proof {
+            /*@*/     let b = choose|b: OBox| cleanup_pre(old, new, s1, b);
+            /*@*/     assert(ops_full(old, new, ops@, b, false)); assert(cleanup_pre(old, new, ops@, b));
+            /*@*/     assert forall|b2: OBox| #[trigger] ops_full(old, new, ops0, b2, false) implies ops_full(old, new, ops@, b2, false) by { assert(ops_full(old, new, s1, b2, false)); }
+            /*@*/     assert forall|b2: OBox| #[trigger] ops_full(old, new, ops0, b2, true) implies ops_full(old, new, ops@, b2, true) by { assert(ops_full(old, new, s1, b2, true)); }   // [C11]
+            /*@*/ }
+            /*@*/ let ghost s1 = ops@;
             pointer = shift_diff_ops_down(ops, old, new, pointer);
+            /*@*/ proof {
+            /*@*/     let b = choose|b: OBox| cleanup_pre(old, new, s1, b);
+            /*@*/     assert(ops_full(old, new, ops@, b, false)); assert(cleanup_pre(old, new, ops@, b));
+            /*@*/     assert forall|b2: OBox| #[trigger] ops_full(old, new, ops0, b2, false) implies ops_full(old, new, ops@, b2, false) by { assert(ops_full(old, new, s1, b2, false)); }
+            /*@*/     assert forall|b2: OBox| #[trigger] ops_full(old, new, ops0, b2, true) implies ops_full(old, new, ops@, b2, true) by { assert(ops_full(old, new, s1, b2, true)); }   // [C11]
+            /*@*/ }
         }
+        /*@*/ assert(pointer < ops.len() && ops.len() == ops@.len());
         pointer += 1;
     }
 
     // Then attempt to compact all Insertions
     let mut pointer = 0;
     while let Some(op__r) = ops.get(pointer)
+    /*@*/     invariant
+    /*@*/         exists|b: OBox| #[trigger] cleanup_pre(old, new, ops@, b),
+    /*@*/         cleanup_post(old, new, ops0, ops@),
+    /*@*/         cleanup_post_exact(old, new, ops0, ops@),   // [C11]
     {
         let op = *op__r;
+        /*@*/ proof { let b = choose|b: OBox| cleanup_pre(old, new, ops@, b); assert(inv_pre(old, new, ops@, b)) by { reveal(inv_pre); } lemma_op_usable(old, new, ops@, pointer as int, b); }
         if let DiffTag::Insert = op.tag() {
+            /*@*/ let ghost s1 = ops@;
             pointer = shift_diff_ops_up(ops, old, new, pointer);
+            /*@*/ proof {
+            /*@*/     let b = choose|b: OBox| cleanup_pre(old, new, s1, b);
+            /*@*/     assert(ops_full(old, new, ops@, b, false)); assert(cleanup_pre(old, new, ops@, b));
+            /*@*/     assert forall|b2: OBox| #[trigger] ops_full(old, new, ops0, b2, false) implies ops_full(old, new, ops@, b2, false) by { assert(ops_full(old, new, s1, b2, false)); }
+            /*@*/     assert forall|b2: OBox| #[trigger] ops_full(old, new, ops0, b2, true) implies ops_full(old, new, ops@, b2, true) by { assert(ops_full(old, new, s1, b2, true)); }   // [C11]
+            /*@*/ }
+            /*@*/ let ghost s1 = ops@;
             pointer = shift_diff_ops_down(ops, old, new, pointer);
+            /*@*/ proof {
+            /*@*/     let b = choose|b: OBox| cleanup_pre(old, new, s1, b);
+            /*@*/     assert(ops_full(old, new, ops@, b, false)); assert(cleanup_pre(old, new, ops@, b));
+            /*@*/     assert forall|b2: OBox| #[trigger] ops_full(old, new, ops0, b2, false) implies ops_full(old, new, ops@, b2, false) by { assert(ops_full(old, new, s1, b2, false)); }
+            /*@*/     assert forall|b2: OBox| #[trigger] ops_full(old, new, ops0, b2, true) implies ops_full(old, new, ops@, b2, true) by { assert(ops_full(old, new, s1, b2, true)); }   // [C11]
+            /*@*/ }
         }
+        /*@*/ assert(pointer < ops.len() && ops.len() == ops@.len());
         pointer += 1;
     }
 }
 //@@ end
 
 //@@ item src/algorithms/compact.rs :: ^fn shift_diff_ops_up rw=R0,R8,R2,R10
-/*@*/ #[verifier::exec_allows_no_decreases_clause]
 fn shift_diff_ops_up<Old, New>(
     ops: &mut Vec<DiffOp>,
     old: &Old,
@@ -81,10 +122,21 @@ where
 /*@*/         cleanup_post_exact(old, new, vstd::prelude::old(ops)@, final(ops)@),   // [C11]
 /*@*/         res < final(ops)@.len(), op_tag(final(ops)@[res as int]) == op_tag(vstd::prelude::old(ops)@[pointer as int]),
 {
+    /*@*/ let ghost ops0 = ops@; let ghost tag0 = op_tag(ops@[pointer as int]);
+    /*@*/ let ghost bw = lemma_inv_init(old, new, ops@);
     while let Some(prev_op__r) = match (pointer.checked_sub(1)) { Some(idx) => ops.get(idx), None => None }
+    /*@*/     invariant
+    /*@*/         pointer < ops.len(), ops.len() == ops@.len(),
+    /*@*/         op_tag(ops@[pointer as int]) == tag0, tag0 == DiffTag::Insert || tag0 == DiffTag::Delete,
+    /*@*/         inv_pre(old, new, ops@, bw), inv_post(old, new, ops0, ops@),
+    /*@*/         inv_exact(old, new, ops0, ops@),   // [C11]
+    /*@*/
+    /*@*/     decreases pointer, (if pointer > 0 { olen(ops@[pointer - 1]) } else { 0 }),
     {
         let prev_op = *prev_op__r;
         let this_op = ops[pointer];
+        /*@*/ let ghost s1 = ops@; let ghost p = pointer as int;
+        /*@*/ proof { lemma_around_usable(old, new, s1, p, bw); }
         match (this_op.tag(), prev_op.tag()) {
             // Shift Inserts Upwards
             (DiffTag::Insert, DiffTag::Equal) => {
@@ -110,6 +162,10 @@ where
                         ops.remove(pointer - 1);
                         pointer -= 1;
                     }
+                    /*@*/ proof {
+                    /*@*/     assert(ops@ =~= shift_up_result(s1, p, suffix_len));
+                    /*@*/     lemma_do_shift_up(old, new, ops0, s1, p, suffix_len, bw);
+                    /*@*/ }
                 } else if ops[pointer - 1].is_empty() {
                     ops.remove(pointer - 1);
                     pointer -= 1;
@@ -123,6 +179,7 @@ where
                 // check common suffix for the amount we can shift
                 let suffix_len =
                     common_suffix_len(old, prev_op.old_range(), new, this_op.new_range());
+                /*@*/ assert(suffix_len == 0);
                 if suffix_len != 0 {
                     if let Some(DiffTag::Equal) = match (ops.get(pointer + 1)) { Some(x) => Some(x.tag()), None => None } {
                         ops[pointer + 1].grow_left(suffix_len);
@@ -156,27 +213,40 @@ where
             (DiffTag::Insert, DiffTag::Delete) | (DiffTag::Delete, DiffTag::Insert) => {
                 ops.swap(pointer - 1, pointer);
                 pointer -= 1;
+                /*@*/ proof {
+                /*@*/     assert(swapped(s1, ops@, p));
+                /*@*/     assert(swap_plain(s1, ops@, p) || swap_fixed(ops@, p));
+                /*@*/     lemma_do_swap(old, new, ops0, s1, ops@, p, bw);
+                /*@*/ }
             }
             // Merge the two ranges
             (DiffTag::Insert, DiffTag::Insert) => {
                 ops[pointer - 1].grow_right(this_op.new_range().len());
                 ops.remove(pointer);
                 pointer -= 1;
+                /*@*/ proof {
+                /*@*/     assert(ops@ =~= merge_result(s1, p));
+                /*@*/     lemma_do_merge(old, new, ops0, s1, p, bw);
+                /*@*/ }
             }
             (DiffTag::Delete, DiffTag::Delete) => {
                 ops[pointer - 1].grow_right(this_op.old_range().len());
                 ops.remove(pointer);
                 pointer -= 1;
+                /*@*/ proof {
+                /*@*/     assert(ops@ =~= merge_result(s1, p));
+                /*@*/     lemma_do_merge(old, new, ops0, s1, p, bw);
+                /*@*/ }
             }
             _ => unreachable!("unexpected tag"),
         }
     }
+    /*@*/ proof { lemma_inv_exit(old, new, ops0, ops@); }
     pointer
 }
 //@@ end
 
 //@@ item src/algorithms/compact.rs :: ^fn shift_diff_ops_down rw=R0,R8,R2,R10
-/*@*/ #[verifier::exec_allows_no_decreases_clause]
 fn shift_diff_ops_down<Old, New>(
     ops: &mut Vec<DiffOp>,
     old: &Old,
@@ -195,10 +265,21 @@ where
 /*@*/         cleanup_post_exact(old, new, vstd::prelude::old(ops)@, final(ops)@),   // [C11]
 /*@*/         res < final(ops)@.len(), op_tag(final(ops)@[res as int]) == op_tag(vstd::prelude::old(ops)@[pointer as int]),
 {
+    /*@*/ let ghost ops0 = ops@; let ghost tag0 = op_tag(ops@[pointer as int]);
+    /*@*/ let ghost bw = lemma_inv_init(old, new, ops@);
     while let Some(next_op__r) = match (pointer.checked_add(1)) { Some(idx) => ops.get(idx), None => None }
+    /*@*/     invariant
+    /*@*/         pointer < ops.len(), ops.len() == ops@.len(),
+    /*@*/         op_tag(ops@[pointer as int]) == tag0, tag0 == DiffTag::Insert || tag0 == DiffTag::Delete,
+    /*@*/         inv_pre(old, new, ops@, bw), inv_post(old, new, ops0, ops@),
+    /*@*/         inv_exact(old, new, ops0, ops@),   // [C11]
+    /*@*/
+    /*@*/     decreases ops@.len() - pointer, (if pointer + 1 < ops@.len() { olen(ops@[pointer + 1]) } else { 0 }),
     {
         let next_op = *next_op__r;
         let this_op = ops[pointer];
+        /*@*/ let ghost s1 = ops@; let ghost p = pointer as int;
+        /*@*/ proof { lemma_around_usable(old, new, s1, p, bw); }
         match (this_op.tag(), next_op.tag()) {
             // Shift Inserts Downwards
             (DiffTag::Insert, DiffTag::Equal) => {
@@ -228,6 +309,10 @@ where
                     if ops[pointer + 1].is_empty() {
                         ops.remove(pointer + 1);
                     }
+                    /*@*/ proof {
+                    /*@*/     assert(ops@ =~= shift_down_result(s1, p, prefix_len));
+                    /*@*/     lemma_do_shift_down(old, new, ops0, s1, p, prefix_len, bw);
+                    /*@*/ }
                 } else if ops[pointer + 1].is_empty() {
                     ops.remove(pointer + 1);
                 } else {
@@ -240,6 +325,7 @@ where
                 // check common suffix for the amount we can shift
                 let prefix_len =
                     common_prefix_len(old, next_op.old_range(), new, this_op.new_range());
+                /*@*/ assert(prefix_len == 0);
                 if prefix_len > 0 {
                     if let Some(DiffTag::Equal) = match (match (pointer
                         .checked_sub(1)
@@ -275,21 +361,222 @@ where
             (DiffTag::Insert, DiffTag::Delete) | (DiffTag::Delete, DiffTag::Insert) => {
                 ops.swap(pointer, pointer + 1);
                 pointer += 1;
+                /*@*/ proof {
+                /*@*/     assert(swapped(s1, ops@, p + 1));
+                /*@*/     assert(swap_plain(s1, ops@, p + 1) || swap_fixed(ops@, p + 1));
+                /*@*/     lemma_do_swap(old, new, ops0, s1, ops@, p + 1, bw);
+                /*@*/ }
             }
             // Merge the two ranges
             (DiffTag::Insert, DiffTag::Insert) => {
                 ops[pointer].grow_right(next_op.new_range().len());
                 ops.remove(pointer + 1);
+                /*@*/ proof {
+                /*@*/     assert(ops@ =~= merge_result(s1, p + 1));
+                /*@*/     lemma_do_merge(old, new, ops0, s1, p + 1, bw);
+                /*@*/ }
             }
             (DiffTag::Delete, DiffTag::Delete) => {
                 ops[pointer].grow_right(next_op.old_range().len());
                 ops.remove(pointer + 1);
+                /*@*/ proof {
+                /*@*/     assert(ops@ =~= merge_result(s1, p + 1));
+                /*@*/     lemma_do_merge(old, new, ops0, s1, p + 1, bw);
+                /*@*/ }
             }
             _ => unreachable!("unexpected tag"),
         }
     }
+    /*@*/ proof { lemma_inv_exit(old, new, ops0, ops@); }
     pointer
 }
 //@@ end
+
+// ---------------------------------------------------------------------------------------------
+// proof support for the three functions above (pure ghost; the rewrites themselves are in opspec_lemmas.rs)
+// ---------------------------------------------------------------------------------------------
+// The loop invariants carry the precondition / the postconditions behind opaque names: their quantifiers (over all ops,
+// over all boxes) are needed inside the lemmas below only, not in the loop bodies.
+#[verifier::opaque]
+spec fn inv_pre<Old: Index<usize> + ?Sized, New: Index<usize> + ?Sized>(old: &Old, new: &New, ops: Seq<DiffOp>, b: OBox) -> bool
+  where New::Output: PartialEq<Old::Output>
+{ cleanup_pre(old, new, ops, b) }
+
+#[verifier::opaque]
+spec fn inv_post<Old: Index<usize> + ?Sized, New: Index<usize> + ?Sized>(old: &Old, new: &New, ops0: Seq<DiffOp>, ops1: Seq<DiffOp>) -> bool
+  where New::Output: PartialEq<Old::Output>
+{ cleanup_post(old, new, ops0, ops1) }
+
+#[verifier::opaque]
+spec fn inv_exact<Old: Index<usize> + ?Sized, New: Index<usize> + ?Sized>(old: &Old, new: &New, ops0: Seq<DiffOp>, ops1: Seq<DiffOp>) -> bool
+  where New::Output: PartialEq<Old::Output>
+{ cleanup_post_exact(old, new, ops0, ops1) }
+
+proof fn lemma_inv_init<Old: Index<usize> + ?Sized, New: Index<usize> + ?Sized>(old: &Old, new: &New, ops0: Seq<DiffOp>) -> (bw: OBox)
+  where New::Output: PartialEq<Old::Output>
+    requires exists|b: OBox| #[trigger] cleanup_pre(old, new, ops0, b),
+    ensures inv_pre(old, new, ops0, bw), inv_post(old, new, ops0, ops0), inv_exact(old, new, ops0, ops0),
+{
+    reveal(inv_pre); reveal(inv_post); reveal(inv_exact);
+    choose|b: OBox| cleanup_pre(old, new, ops0, b)
+}
+
+proof fn lemma_inv_exit<Old: Index<usize> + ?Sized, New: Index<usize> + ?Sized>(old: &Old, new: &New, ops0: Seq<DiffOp>, ops1: Seq<DiffOp>)
+  where New::Output: PartialEq<Old::Output>
+    ensures inv_post(old, new, ops0, ops1) == cleanup_post(old, new, ops0, ops1), inv_exact(old, new, ops0, ops1) == cleanup_post_exact(old, new, ops0, ops1),
+{
+    reveal(inv_post); reveal(inv_exact);
+}
+
+/// one more step: lax part, exact part
+proof fn lemma_inv_step<Old: Index<usize> + ?Sized, New: Index<usize> + ?Sized>(old: &Old, new: &New, ops0: Seq<DiffOp>, s1: Seq<DiffOp>, s2: Seq<DiffOp>, bw: OBox)
+  where New::Output: PartialEq<Old::Output>
+    requires inv_pre(old, new, s1, bw), inv_post(old, new, ops0, s1), lax_step(old, new, s1, s2),
+    ensures inv_pre(old, new, s2, bw), inv_post(old, new, ops0, s2),
+        inv_exact(old, new, ops0, s1) && step_ok(old, new, s1, s2, true) ==> inv_exact(old, new, ops0, s2),
+{
+    reveal(inv_pre); reveal(inv_post); reveal(inv_exact);
+    assert forall|b: OBox| #[trigger] ops_full(old, new, ops0, b, false) implies ops_full(old, new, s2, b, false) by {
+        assert(ops_full(old, new, s1, b, false));
+    }
+    if inv_exact(old, new, ops0, s1) && step_ok(old, new, s1, s2, true) {
+        assert forall|b: OBox| #[trigger] ops_full(old, new, ops0, b, true) implies ops_full(old, new, s2, b, true) by {
+            assert(ops_full(old, new, s1, b, true));
+        }
+    }
+}
+
+/// what the code may rely on for one op of a valid script: it is well-formed, not a Replace, not empty, its ranges may be indexed
+spec fn op_usable<Old: Index<usize> + ?Sized, New: Index<usize> + ?Sized>(old: &Old, new: &New, op: DiffOp) -> bool
+  where New::Output: PartialEq<Old::Output>
+{
+    &&& op_wf(op) && !(op is Replace) && nonempty(op)
+    &&& (op is Equal || op is Delete) ==> inb(old, op_old_range(op))
+    &&& (op is Equal || op is Insert) ==> inb(new, op_new_range(op))
+    &&& op is Insert ==> inb(old, op_old_range(op))
+    &&& op is Delete ==> inb(new, op_new_range(op))
+}
+
+/// two neighbours a, c of a valid script (c follows a): what the arms of shift_diff_ops_up / _down rely on
+spec fn pair_usable(a: DiffOp, c: DiffOp) -> bool {
+    &&& a is Insert && c is Insert ==> op_new_len(a) + op_new_len(c) <= usize::MAX
+    &&& a is Delete && c is Delete ==> op_old_len(a) + op_old_len(c) <= usize::MAX
+    // an Insert behind an Equal: it starts where the Equal ends, and what it carries has room to move up across the Equal
+    &&& a is Equal && c is Insert ==> op_new_index(c) == op_new_end(a) && op_old_index(c) >= op_old_len(a)
+    // an Insert before an Equal: what it carries, and its own index, have room to move down across the Equal
+    &&& a is Insert && c is Equal ==> op_old_index(a) + op_old_len(c) <= usize::MAX && op_new_end(a) + op_old_len(c) <= usize::MAX
+}
+
+/// Equal, Insert, Equal in a row: the second Equal starts where the first one ends (old side) / where the Insert ends (new side)
+spec fn triple_usable(a: DiffOp, c: DiffOp, d: DiffOp) -> bool {
+    a is Equal && c is Insert && d is Equal ==> op_old_len(a) + op_old_len(d) <= usize::MAX
+        && op_old_index(d) == op_old_end(a) && op_new_index(d) == op_new_end(c)
+}
+
+proof fn lemma_op_usable<Old: Index<usize> + ?Sized, New: Index<usize> + ?Sized>(old: &Old, new: &New, ops: Seq<DiffOp>, i: int, b: OBox)
+  where New::Output: PartialEq<Old::Output>
+    requires inv_pre(old, new, ops, b), 0 <= i < ops.len(),
+    ensures op_usable(old, new, ops[i]),
+{
+    reveal(inv_pre);
+    lemma_op_facts(old, new, ops, i, b, false);
+}
+
+proof fn lemma_pair_usable<Old: Index<usize> + ?Sized, New: Index<usize> + ?Sized>(old: &Old, new: &New, ops: Seq<DiffOp>, i: int, b: OBox)
+  where New::Output: PartialEq<Old::Output>
+    requires inv_pre(old, new, ops, b), 0 <= i, i + 1 < ops.len(),
+    ensures pair_usable(ops[i], ops[i + 1]),
+{
+    reveal(inv_pre);
+    lemma_op_facts(old, new, ops, i, b, false);
+    lemma_op_facts(old, new, ops, i + 1, b, false);
+    assert(carried_ok(ops));
+    let a = ops[i]; let c = ops[i + 1];
+    if a is Equal && c is Insert { assert(esum(ops, i + 1) <= op_old_index(c)); }
+    if a is Insert && c is Equal { assert(op_old_index(a) + (esum(ops, ops.len() as int) - esum(ops, i)) <= usize::MAX); }
+}
+
+proof fn lemma_triple_usable<Old: Index<usize> + ?Sized, New: Index<usize> + ?Sized>(old: &Old, new: &New, ops: Seq<DiffOp>, i: int, b: OBox)
+  where New::Output: PartialEq<Old::Output>
+    requires inv_pre(old, new, ops, b), 0 <= i, i + 2 < ops.len(),
+    ensures triple_usable(ops[i], ops[i + 1], ops[i + 2]),
+{
+    reveal(inv_pre);
+    lemma_op_facts(old, new, ops, i, b, false);
+    lemma_op_facts(old, new, ops, i + 1, b, false);
+    lemma_op_facts(old, new, ops, i + 2, b, false);
+}
+
+/// everything a loop body of shift_diff_ops_up / _down relies on about the ops around position p
+spec fn around_usable<Old: Index<usize> + ?Sized, New: Index<usize> + ?Sized>(old: &Old, new: &New, ops: Seq<DiffOp>, p: int) -> bool
+  where New::Output: PartialEq<Old::Output>
+{
+    &&& op_usable(old, new, ops[p])
+    &&& p >= 1 ==> op_usable(old, new, ops[p - 1]) && pair_usable(ops[p - 1], ops[p])
+    &&& p + 1 < ops.len() ==> op_usable(old, new, ops[p + 1]) && pair_usable(ops[p], ops[p + 1])
+    &&& p >= 1 && p + 1 < ops.len() ==> triple_usable(ops[p - 1], ops[p], ops[p + 1])
+}
+
+proof fn lemma_around_usable<Old: Index<usize> + ?Sized, New: Index<usize> + ?Sized>(old: &Old, new: &New, ops: Seq<DiffOp>, p: int, b: OBox)
+  where New::Output: PartialEq<Old::Output>
+    requires inv_pre(old, new, ops, b), 0 <= p < ops.len(),
+    ensures around_usable(old, new, ops, p),
+{
+    lemma_op_usable(old, new, ops, p, b);
+    if p >= 1 { lemma_op_usable(old, new, ops, p - 1, b); lemma_pair_usable(old, new, ops, p - 1, b); }
+    if p + 1 < ops.len() { lemma_op_usable(old, new, ops, p + 1, b); lemma_pair_usable(old, new, ops, p, b); }
+    if p >= 1 && p + 1 < ops.len() { lemma_triple_usable(old, new, ops, p - 1, b); }
+}
+
+// the arms: each takes the invariants at the loop head (list s1) and gives them back for the rewritten list
+proof fn lemma_do_merge<Old: Index<usize> + ?Sized, New: Index<usize> + ?Sized>(old: &Old, new: &New, ops0: Seq<DiffOp>, s1: Seq<DiffOp>, p: int, bw: OBox)
+  where New::Output: PartialEq<Old::Output>
+    requires inv_pre(old, new, s1, bw), inv_post(old, new, ops0, s1), 1 <= p < s1.len(),
+        (s1[p - 1] is Insert && s1[p] is Insert) || (s1[p - 1] is Delete && s1[p] is Delete),
+    ensures inv_pre(old, new, merge_result(s1, p), bw), inv_post(old, new, ops0, merge_result(s1, p)),
+        inv_exact(old, new, ops0, s1) ==> inv_exact(old, new, ops0, merge_result(s1, p)),
+{
+    lemma_pair_usable(old, new, s1, p - 1, bw);
+    lemma_arm_merge(old, new, s1, p);
+    lemma_inv_step(old, new, ops0, s1, merge_result(s1, p), bw);
+}
+
+proof fn lemma_do_shift_up<Old: Index<usize> + ?Sized, New: Index<usize> + ?Sized>(old: &Old, new: &New, ops0: Seq<DiffOp>, s1: Seq<DiffOp>, p: int, s: usize, bw: OBox)
+  where New::Output: PartialEq<Old::Output>
+    requires inv_pre(old, new, s1, bw), inv_post(old, new, ops0, s1), 1 <= p < s1.len(),
+        s1[p - 1] is Equal, s1[p] is Insert, 0 < s <= op_old_len(s1[p - 1]), s <= op_new_len(s1[p]),
+        forall|k: int| 0 <= k < s ==> #[trigger] relk(rel_of(old, new), op_old_end(s1[p - 1]) - s, op_new_end(s1[p]) - s, k),
+    ensures inv_pre(old, new, shift_up_result(s1, p, s), bw), inv_post(old, new, ops0, shift_up_result(s1, p, s)),
+        inv_exact(old, new, ops0, s1) ==> inv_exact(old, new, ops0, shift_up_result(s1, p, s)),
+{
+    lemma_around_usable(old, new, s1, p, bw);
+    lemma_arm_shift_up(old, new, s1, p, s);
+    lemma_inv_step(old, new, ops0, s1, shift_up_result(s1, p, s), bw);
+}
+
+proof fn lemma_do_shift_down<Old: Index<usize> + ?Sized, New: Index<usize> + ?Sized>(old: &Old, new: &New, ops0: Seq<DiffOp>, s1: Seq<DiffOp>, p: int, s: usize, bw: OBox)
+  where New::Output: PartialEq<Old::Output>
+    requires inv_pre(old, new, s1, bw), inv_post(old, new, ops0, s1), 0 <= p, p + 1 < s1.len(),
+        s1[p + 1] is Equal, s1[p] is Insert, 0 < s <= op_old_len(s1[p + 1]), s <= op_new_len(s1[p]),
+        forall|k: int| 0 <= k < s ==> #[trigger] relk(rel_of(old, new), op_old_index(s1[p + 1]) as int, op_new_index(s1[p]) as int, k),
+    ensures inv_pre(old, new, shift_down_result(s1, p, s), bw), inv_post(old, new, ops0, shift_down_result(s1, p, s)),
+        inv_exact(old, new, ops0, s1) ==> inv_exact(old, new, ops0, shift_down_result(s1, p, s)),
+{
+    lemma_around_usable(old, new, s1, p, bw);
+    lemma_arm_shift_down(old, new, s1, p, s);
+    lemma_inv_step(old, new, ops0, s1, shift_down_result(s1, p, s), bw);
+}
+
+/// `ops.swap(p - 1, p)`, with or without the recomputation of what the two ops carry; exactness survives only with it
+proof fn lemma_do_swap<Old: Index<usize> + ?Sized, New: Index<usize> + ?Sized>(old: &Old, new: &New, ops0: Seq<DiffOp>, s1: Seq<DiffOp>, s2: Seq<DiffOp>, p: int, bw: OBox)
+  where New::Output: PartialEq<Old::Output>
+    requires inv_pre(old, new, s1, bw), inv_post(old, new, ops0, s1), swapped(s1, s2, p), swap_plain(s1, s2, p) || swap_fixed(s2, p),
+    ensures inv_pre(old, new, s2, bw), inv_post(old, new, ops0, s2),
+        inv_exact(old, new, ops0, s1) && swap_fixed(s2, p) ==> inv_exact(old, new, ops0, s2),
+{
+    assert(ops_full(old, new, s1, bw, false) && carried_ok(s1)) by { reveal(inv_pre); }
+    lemma_arm_swap(old, new, s1, s2, p, bw);
+    lemma_inv_step(old, new, ops0, s1, s2, bw);
+}
 
 } // verus!
